@@ -72,3 +72,10 @@ func verifRegisterStore(db *sql.DB, dsnPath string) { panic("intrinsic") }
 func verifStoreExists(dsnPath string) bool          { panic("intrinsic") }
 func verifDBClosed(db *sql.DB) bool                 { panic("intrinsic") }
 func verifFSSet(path string, exists bool)           { panic("intrinsic") }
+
+func verifExplore(preemptions int) { panic("intrinsic") } // explore thread interleavings (context switches at lock/SQL/channel operations, bounded preemptions)
+func verifJoin()                   { panic("intrinsic") } // wait until every other goroutine has finished or is blocked
+func verifLiveThreads() int        { panic("intrinsic") } // goroutines (other than the caller) that have not finished
+func verifFireTimers() int         { panic("intrinsic") } // fire every armed timer (each in its own goroutine); returns how many
+
+func verifDocSlotAny(db *sql.DB, i int) verifDoc { panic("intrinsic") } // slot i including spare slots (post-state scans)
